@@ -423,6 +423,28 @@ def run_assembly(case, seed):
         err = float(np.abs(Hk[(kn, 0.5)] - 0.5 * (Hk[(kn, 0.0)] + Hk[(kn, 1.0)])).max())
         if err > TOL * max(1.0, np.abs(Hk[(kn, 1.0)]).max()):
             return {"ok": False, "key": "SystemSOC.set_soc_axis:alpha_soc_not_linear", "detail": f"{case} k={kn}: {err:.3g}"}
+    # re-assembly history on ONE object: every sequence of <= 2 set_soc_axis calls over a 4-letter alphabet (same axis with
+    # alpha 0.5 / 1 / 0, another axis), then the axis and each alpha of the alphabet again: Ham_SOC and SS must be those of
+    # a freshly assembled system (alpha applied once, nothing left over from the earlier settings)
+    hs = ss.make_soc_system(up, dn, with_soc=False)
+    soc = SOC(data={i: d.copy() for i, d in data.items()}, NK=len(data),
+              overlap=({i: o.copy() for i, o in ovl.items()} if ovl is not None else {i: np.eye(nw, dtype=complex) for i in data}))
+    hs.set_soc_R(soc, chk_up=chk_up, chk_down=chk_dn, theta=theta, phi=phi, alpha_soc=0.5)
+    letters = [(theta, phi, 0.5), (theta, phi, 1.0), (theta + 0.4, phi + 0.3, 0.5), (theta, phi, 0.0)]
+    for n in (1, 2):
+        for seq in itertools.product(range(len(letters)), repeat=n):
+            for alpha in ALPHAS:
+                for i in seq:
+                    hs.set_soc_axis(theta=letters[i][0], phi=letters[i][1], alpha_soc=letters[i][2])
+                hs.set_soc_axis(theta=theta, phi=phi, alpha_soc=alpha)
+                for key in ("Ham_SOC", "SS"):
+                    a, b = np.array(hs.get_R_mat(key)), np.array(systems[alpha].get_R_mat(key))
+                    err = float(np.abs(a - b).max()) if a.shape == b.shape else np.inf
+                    if err > 1e-12 * max(1.0, float(np.abs(b).max())):
+                        return {"ok": False, "key": f"SystemSOC.set_soc_axis:history:{key}",
+                                "detail": f"{case}: after set_soc_axis calls {[letters[i] for i in seq]} (theta, phi, alpha_soc) on one object, "
+                                          f"set_soc_axis(theta={theta}, phi={phi}, alpha_soc={alpha}) gives {key} different by {err:.3g} from a "
+                                          f"freshly assembled system", "nontrivial": True}
     nt = [("assembly", case["rel"], "couples_spins" if couples else "spin_diagonal", "impulse" if impulse else "generic")]
     return {"ok": True, "nontrivial": True, "obs": {"class": nt[0]}}
 
